@@ -356,13 +356,52 @@ class Replayer:
         other = self.KnotVector(self.mode.nums(a["other"]))
         snap = list(other)
         r = live[a["obj"]] | other
-        return {"kv": r, "other_unchanged": list(other) == snap, "fresh": r is not live[a["obj"]]}
+        return {"kv": r, "other_unchanged": list(other) == snap, "fresh": r is not live[a["obj"]], "operands": (other,)}
 
     def do_KvAnd(self, live, a):
         other = self.KnotVector(self.mode.nums(a["other"]))
         snap = list(other)
         r = live[a["obj"]] & other
         return {"kv": r, "other_unchanged": list(other) == snap, "fresh": r is not live[a["obj"]]}
+
+    def do_KvValueOp(self, live, a):
+        kv = live[a["obj"]]
+        op = a["op"]
+        x = self.mode.nums(a["nodes"]) if op in ("add_nodes", "sub_nodes") else self.mode.num(a["by"])
+        r = {"add_nodes": lambda: kv + x, "sub_nodes": lambda: kv - x, "add": lambda: kv + x, "sub": lambda: kv - x,
+             "mul": lambda: kv * x, "rmul": lambda: x * kv, "div": lambda: kv / x}[op]()
+        return {"kv": r, "fresh": r is not kv}
+
+    def cmp_KvValueOp(self, live, t, val):
+        f = []
+        if not isinstance(val["kv"], self.KnotVector):
+            return [f"result is a {type(val['kv']).__name__}, not a KnotVector"]
+        if not self._kv_equals(val["kv"], t["ret"]["val"]):
+            f.append(f"result: got {list(val['kv'])}, spec {t['ret']['val']}")
+        if not val["fresh"]:
+            f.append("result aliases the receiver")
+        return f
+
+    def do_KvEq(self, live, a):
+        kv = live[a["obj"]]
+        seq = self.mode.nums(a["seq"])
+        out = {"list": (kv == list(seq), kv != list(seq)), "tuple": (kv == tuple(seq), kv != tuple(seq))}
+        try:
+            other = self.KnotVector(seq)
+        except Exception:
+            other = None
+        if other is not None:
+            out["kv"] = (kv == other, kv != other)
+            out["sym"] = (other == kv, other != kv)
+        return out
+
+    def cmp_KvEq(self, live, t, val):
+        want = bool(t["ret"]["val"])
+        f = []
+        for form, (eq, ne) in val.items():
+            if bool(eq) != want or bool(ne) == want:
+                f.append(f"== / != against a {form}: got {eq!r} / {ne!r}, spec {want} / {not want}")
+        return f
 
     def do_KvSplit(self, live, a):
         return {"pieces": live[a["obj"]].split(self.mode.nums(a["nodes"]))}
@@ -446,7 +485,7 @@ class Replayer:
         B = self.curve_from(a["other"])
         snapB = self.project(B)
         r = A | B
-        return {"curve": r, "other_unchanged": self.project(B) == snapB}
+        return {"curve": r, "other_unchanged": self.project(B) == snapB, "operands": (B,)}
 
     def do_CvArith(self, live, a):
         A = live[a["obj"]]
@@ -463,7 +502,7 @@ class Replayer:
             r = A / B
         else:
             raise core.MachineryError(f"unknown op {op}")
-        return {"curve": r, "other_unchanged": self.project(B) == snapB}
+        return {"curve": r, "other_unchanged": self.project(B) == snapB, "operands": (B,)}
 
     def do_CvScalar(self, live, a):
         A = live[a["obj"]]
@@ -575,7 +614,14 @@ class Replayer:
 
     def do_CvDerivate(self, live, a):
         from compmec.nurbs.calculus import Derivate
-        return {"D": Derivate(live[a["obj"]])}
+        c = live[a["obj"]]
+        forms = {"Derivate.curve": Derivate.curve(c)}   # the named entry points behind Derivate(c)
+        if c.degree >= 1:
+            shape = "bezier" if c.degree + 1 == c.npts else "spline"
+            forms["Derivate." + shape] = getattr(Derivate, shape)(c)
+            name = ("nonrational_" if c.weights is None else "rational_") + shape
+            forms["Derivate." + name] = getattr(Derivate, name)(c)
+        return {"D": Derivate(c), "forms": forms}
 
     def do_CvIntegrate(self, live, a):
         from compmec.nurbs.calculus import Integrate
@@ -597,15 +643,30 @@ class Replayer:
 
     def do_GeoLength(self, live, a):
         from compmec.nurbs.calculus import Integrate
-        return {"L": Integrate.lenght(self.polyline(a["curve"]))}
+        C = self.polyline(a["curve"])
+        k = a.get("k", 0)
+        if k == 0 and a.get("method", "default") == "default" and not a.get("nnodes"):
+            return {"L": Integrate.lenght(C)}
+        g = (lambda u: u ** k) if k else None
+        method = None if a["method"] == "default" else a["method"]
+        return {"L": Integrate.lenght(C, g, method, a["nnodes"] or None)}
 
     def do_CvFitCurve(self, live, a):
         S = live[a["obj"]]
         C = self.curve_from(a["other"])
         snap = self.project(C)
         nodes = self.mode.nums(a["nodes"]) if a["nodes"] else None
+        import copy
+        S2 = copy.deepcopy(S)
         err = S.fit_curve(C, nodes) if nodes is not None else S.fit_curve(C)
-        return {"err": err, "other_unchanged": self.project(C) == snap}
+        out = {"err": err, "other_unchanged": self.project(C) == snap}
+        try:   # the dispatching form fit(x): a Curve argument means fit_curve
+            err2 = S2.fit(C, nodes) if nodes is not None else S2.fit(C)
+            out["fit_form"] = None if (self.project(S2) == self.project(S) and err2 == err) else \
+                f"fit(curve) gives {self.project(S2)} / {err2}, fit_curve gives {self.project(S)} / {err}"
+        except Exception as e:
+            out["fit_form"] = f"fit(curve) raised {type(e).__name__}: {e}"
+        return out
 
     def do_CvFitInRational(self, live, a):
         S = live[a["obj"]]
@@ -615,15 +676,26 @@ class Replayer:
     def do_CvFitPoints(self, live, a):
         S = live[a["obj"]]
         data = self.mode.pts(a["data"])
+        import copy
+        S2 = copy.deepcopy(S)
         if a["dflt"]:
             S.fit_points(data)
+            S2.fit(list(data))
         else:
             S.fit_points(data, self.mode.nums(a["nodes"]))
+            S2.fit(list(data), self.mode.nums(a["nodes"]))
+        if self.project(S2) != self.project(S):   # the dispatching form fit(x): a sequence means fit_points
+            return {"fit_form": f"fit(points) gives {self.project(S2)}, fit_points gives {self.project(S)}"}
 
     def do_CvFitFunction(self, live, a):
         S = live[a["obj"]]
         src = self.curve_from(a["src"])
+        import copy
+        S2 = copy.deepcopy(S)
         S.fit_function(lambda u: src(u))
+        S2.fit(lambda u: src(u))
+        if self.project(S2) != self.project(S):   # the dispatching form fit(x): a callable means fit_function
+            return {"fit_form": f"fit(function) gives {self.project(S2)}, fit_function gives {self.project(S)}"}
 
     def polyline(self, c, elev=0):
         import numpy as np
@@ -747,11 +819,14 @@ class Replayer:
         """In the spec a returned curve / knot vector is a VALUE: whatever is later done to it is no action on the heap.
         Here every returned object is mutated and every heap object must stay exactly what it was."""
         objs = []
-        self._returned(val, objs)
+        operands = tuple(val.get("operands", ()))
+        self._returned({k: v for k, v in val.items() if k != "operands"}, objs)
         if not objs:
             return []
         fails = []
         heapobjs = {n: o for n, o in live.items() if isinstance(o, (self.Curve, self.KnotVector))}
+        for i, o in enumerate(operands):     # right-hand operands built for this call count as heap objects here
+            heapobjs[f"right operand {i + 1}"] = o
         try:
             snaps = {n: self.project(o) for n, o in heapobjs.items()}
         except TypeError:
@@ -1020,6 +1095,17 @@ class Replayer:
             w = float(fr(want))
             if not abs(float(got) - w) <= 1e-9 * max(1.0, abs(w)):
                 f.append(f"D({uu}): got {float(got)!r}, spec {w!r}")
+        if not f:
+            def loose(x):   # (exactness of derivatives is no listed property: compared as floats)
+                return ([float(v) for v in x.knotvector], [float(v) for v in x.ctrlpoints],
+                        None if x.weights is None else [float(v) for v in x.weights])
+            ref = loose(D)
+            for name, other in val.get("forms", {}).items():
+                got = loose(other)
+                same = got[0] == ref[0] and (got[2] is None) == (ref[2] is None) and len(got[1]) == len(ref[1]) and all(
+                    close(x, y) for x, y in zip(got[1] + (got[2] or []), ref[1] + (ref[2] or [])))
+                if not same:
+                    f.append(f"{name}(c) differs from Derivate(c): {got} vs {ref}")
         return f
 
     def cmp_CvIntegrate(self, live, t, val):
@@ -1041,11 +1127,18 @@ class Replayer:
         return [] if ok else [f"integral of u^{a['k']} with {a['method']}/{a['nnodes']}: {msg}"]
 
     def cmp_GeoLength(self, live, t, val):
-        want = sum(float(fr(x)) ** 0.5 for x in t["ret"]["val"])
-        return [] if close(val["L"], want) else [f"length: got {val['L']!r}, spec {want!r}"]
+        a = t["act"]
+        want = sum(float(fr(d2)) ** 0.5 * float(fr(m)) for d2, m in t["ret"]["val"])
+        return [] if close(val["L"], want) else [
+            f"integral of u^{a.get('k', 0)} ds ({a.get('method')}, nnodes {a.get('nnodes') or 'default'}): got {val['L']!r}, spec {want!r}"]
+
+    def cmp_CvFitPoints(self, live, t, val):
+        return [val["fit_form"]] if isinstance(val, dict) and val.get("fit_form") else []
+
+    cmp_CvFitFunction = cmp_CvFitPoints
 
     def cmp_CvFitCurve(self, live, t, val):
-        return [] if val["other_unchanged"] else ["source curve modified"]
+        return ([] if val["other_unchanged"] else ["source curve modified"]) + ([val["fit_form"]] if val.get("fit_form") else [])
 
     def cmp_GeoProject(self, live, t, val):
         import numpy as np
@@ -1168,6 +1261,18 @@ class Replayer:
                 fails.append(f"knots: got {obj.knots}, spec {v['knots']}")
             if not self.same_nums([self.num_out(x) for x in obj.limits], v["limits"]):
                 fails.append(f"limits: got {obj.limits}, spec {v['limits']}")
+            # the element list through every access path: iteration, indexing from both ends, slices, .internal
+            items = list(obj)
+            n = len(items)
+            byidx = [obj[i] for i in range(n)]
+            byneg = [obj[i - n] for i in range(n)]
+            if byidx != items or byneg != items or list(obj.internal) != items or list(obj[1:n - 1]) != items[1:n - 1]:
+                fails.append(f"indexing / slicing / .internal disagree with iteration: {items} vs {byidx}, {byneg}, {list(obj.internal)}")
+            try:
+                obj[n]
+                fails.append("kv[len(kv)] did not raise IndexError")
+            except IndexError:
+                pass
         except Exception as e:
             fails.append(f"view raised {type(e).__name__}: {e}")
             return fails
